@@ -5,8 +5,10 @@
 
      Submit        Group.SubmitLocal: admission decision under Group.mu (stopping flag, shard
                    admission counter) and enqueue into the writer inbox (group.go, writer.go enqueue)
-     Prepare       channelWriter.advance: takeInboxLocked .. admitPreparedInboxLocked; the channel
-                   backlog check canAdmit() answers ErrChannelBusy per submitted batch (writer.go, state.go)
+     Prepare       channelWriter.advance: takeInboxLocked .. admitPreparedInboxLocked (the snapshot of the
+                   inbox taken at the start of the pass is admitted; later arrivals wait for the next
+                   pass); the channel backlog check canAdmit() answers ErrChannelBusy per submitted
+                   batch (writer.go, state.go)
      AppendStart   nextAppendLocked + appendEffect.run up to the Appender call: all pending items form
                    one batch, equal (key, payload) items are coalesced to one owner (append.go
                    newIdempotentAppendBatch); the request is now at the Appender port
@@ -163,32 +165,26 @@ Canon(c, its) == ~Canonical \/
           /\ k > 1 => (k - 1) \in usedK
           /\ k # NoKey => its[j].p <= 1 + MaxOf(usedP)
 
-\* Group.SubmitLocal(target of c, its)   its: sequence of [k, p].
-\* With an unbounded backlog the prepare pass only moves the batch from the inbox to the pending
-\* queue (invisible, commutes with everything), so the batch is put there directly.
+\* Group.SubmitLocal(target of c, its)   its: sequence of [k, p].  The batch enters the writer inbox.
 Submit(c, its) ==
   LET n == Len(its) IN
   /\ n \in 1..MaxBatch
   /\ Canon(c, its)
   /\ IF stopping THEN
        /\ ev' = [a |-> "Submit", c |-> c, b |-> 0, first |-> 0, its |-> its, res |-> "notReady"]
-       /\ UNCHANGED <<items, nbat, inbox, pend, res>>
+       /\ UNCHANGED <<items, nbat, inbox, res>>
      ELSE IF OpenFutures >= cfg.cap THEN
        /\ ev' = [a |-> "Submit", c |-> c, b |-> 0, first |-> 0, its |-> its, res |-> "backpressured"]
-       /\ UNCHANGED <<items, nbat, inbox, pend, res>>
+       /\ UNCHANGED <<items, nbat, inbox, res>>
      ELSE
        /\ Len(items) + n <= MaxItems
        /\ items' = items \o [j \in 1..n |-> [c |-> c, k |-> its[j].k, p |-> its[j].p, b |-> nbat + 1,
                                              orig |-> KeyPos(c, its[j].k)]]
        /\ res' = res \o [j \in 1..n |-> RNone]
        /\ nbat' = nbat + 1
-       /\ IF cfg.hw = Unbounded
-            THEN /\ pend' = [pend EXCEPT ![c] = @ \o [j \in 1..n |-> Len(items) + j]]
-                 /\ UNCHANGED inbox
-            ELSE /\ inbox' = [inbox EXCEPT ![c] = Append(@, [first |-> Len(items) + 1, n |-> n])]
-                 /\ UNCHANGED pend
+       /\ inbox' = [inbox EXCEPT ![c] = Append(@, [first |-> Len(items) + 1, n |-> n])]
        /\ ev' = [a |-> "Submit", c |-> c, b |-> nbat + 1, first |-> Len(items) + 1, its |-> its, res |-> "ok"]
-  /\ UNCHANGED <<cfg, infl, log, effq, effrun, effdone, stops, stopping, fails>>
+  /\ UNCHANGED <<cfg, pend, infl, log, effq, effrun, effdone, stops, stopping, fails>>
 
 \* one writer pass admits the whole inbox, batch by batch (canAdmit is all-or-nothing per batch)
 RECURSIVE AdmitAll(_, _, _, _)
@@ -200,13 +196,16 @@ AdmitAll(bs, p, busy, base) ==
             THEN AdmitAll(Tail(bs), p \o is, busy, base)
             ELSE AdmitAll(Tail(bs), p, busy \o is, base)
 
-Prepare(c) ==
-  /\ inbox[c] # <<>>
-  /\ LET r == AdmitAll(inbox[c], pend[c], <<>>, InflItems(c)) IN
+\* One writer pass (channelWriter.advance): the inbox is detached under the lock, prepared outside
+\* it and admitted under the lock again; batches submitted in between wait for the next pass.
+\* Prepare(c, k) is the admission of a snapshot holding the k oldest batches of the inbox.
+Prepare(c, k) ==
+  /\ k \in 1..Len(inbox[c])
+  /\ LET r == AdmitAll(SubSeq(inbox[c], 1, k), pend[c], <<>>, InflItems(c)) IN
      /\ pend' = [pend EXCEPT ![c] = r.p]
      /\ res' = [i \in 1..Len(res) |-> IF i \in Ran(r.busy) THEN RBusy ELSE res[i]]
-     /\ ev' = [a |-> "Prepare", c |-> c, busy |-> r.busy]
-  /\ inbox' = [inbox EXCEPT ![c] = <<>>]
+     /\ ev' = [a |-> "Prepare", c |-> c, k |-> k, busy |-> r.busy]
+  /\ inbox' = [inbox EXCEPT ![c] = SubSeq(@, k + 1, Len(@))]
   /\ UNCHANGED <<cfg, items, nbat, infl, log, effq, effrun, effdone, stops, stopping, fails>>
 
 \* an append batch is named by its first item
@@ -347,7 +346,7 @@ BatchShapes == UNION {[1..n -> ItemShapes] : n \in 1..MaxBatch}
 Outs == {"ok", "conflict", "failBefore", "failAfter"}
 
 SubmitAny      == \E c \in Chans, its \in BatchShapes : Submit(c, its)
-PrepareAny     == \E c \in Chans : Prepare(c)
+PrepareAny     == \E c \in Chans, k \in 1..MaxItems : Prepare(c, k)
 AppendStartAny == \E c \in Chans : AppendStart(c)
 AppendEndAny   == \E c \in Chans, x \in 1..cfg.inflight, o \in Outs : AppendEnd(c, x, o)
 LookupAny      == \E c \in Chans, x \in 1..cfg.inflight : Lookup(c, x)
